@@ -97,7 +97,12 @@ func build(t *wirecodec.Table, kind string, tag uint16, rng *rand.Rand) []byte {
 		return frame(t.Layout[n].ID, b[:rng.Intn(len(b))])
 	case "paymismatch":
 		b := t.EncodeBody("Twrite", wirecodec.Values{"fid": 2, "offset": 0, "data": []byte("0123456789")})
-		binary.LittleEndian.PutUint32(b[12:], uint32(11+rng.Intn(100000)))
+		// the count field differs from the number of payload bytes in the frame, in either direction
+		if rng.Intn(2) == 0 {
+			binary.LittleEndian.PutUint32(b[12:], uint32(rng.Intn(10)))
+		} else {
+			binary.LittleEndian.PutUint32(b[12:], uint32(11+rng.Intn(100000)))
+		}
 		return frame(t.Layout["Twrite"].ID, b)
 	case "size3":
 		sz := []uint32{0, 1, 3, 6}
